@@ -145,6 +145,15 @@ class SecureData:
         """Return length of KNX Data Secure ASDU."""
         return 10 + len(self.secured_apdu)  # 10 = 6 bytes sequence number + 4 bytes MAC
 
+    def __eq__(self, other: object) -> bool:
+        """Equal operator."""
+        return (
+            isinstance(other, SecureData)
+            and self.sequence_number_bytes == other.sequence_number_bytes
+            and self.secured_apdu == other.secured_apdu
+            and self.message_authentication_code == other.message_authentication_code
+        )
+
     @staticmethod
     def init_from_plain_apdu(
         key: bytes,
